@@ -25,7 +25,7 @@ ASSUMPTIONS = [
     "(A-B-A-B) need real threads, which no available engine traces; the multiprocessing pool and the web server are outside the claim",
     "the evaluations run untraced on concrete data (real recursion, no stub); the ONLY symbolic values are the pre-emption points, decided "
     "by the solver at every window (`k == n` is a z3 query), so exhaustion covers every window",
-    "caches: MemoryCache, StoreCache on MemoryStore (quick); + FileCache on ShimFS with windows at every file-system access (thorough)",
+    "caches: MemoryCache, StoreCache on MemoryStore, FileCache on ShimFS with windows at every file-system access; nesting depth 2 on MemoryCache (quick) / all three (thorough)",
     "query pairs: same query / extension of it / its prefix / a query whose link argument is the other query / unrelated",
 ]
 
@@ -37,8 +37,8 @@ def PRECHECK():
 
 EXPLANATION = "symbolic pre-emption point over cache-operation windows; nested schedules only"
 
-QUERIES = ["one/addn-2", "one/addn-2/addn-3", "one", "one/addn-~X~/one/addn-2~E", "one/addn-7", "one/addn-2/res.txt"]
-PAIRS = [(0, 0), (0, 1), (1, 0), (0, 2), (3, 0), (0, 3), (0, 4), (1, 5), (3, 3)]
+QUERIES = ["one/addn-2", "one/addn-2/addn-3", "one", "one/addn-~X~/num-4~E", "one/addn-7", "one/addn-2/res.txt", "num-4"]
+PAIRS = [(0, 0), (0, 1), (1, 0), (0, 2), (3, 6), (6, 3), (0, 4), (1, 5), (3, 3), (3, 0)]
 
 
 class _Plain(Context):
@@ -52,7 +52,7 @@ _NO = NoCache()
 def _alone(q):
     with quiet():
         s = _Plain().evaluate(q)
-    return None if s.is_error else s.data.v
+    return None if s.is_error else getattr(s.data, "v", s.data)
 
 
 EXP = {q: _alone(q) for q in QUERIES + ["one/addn-2/addn-3/res.txt"]}
@@ -162,13 +162,13 @@ def ob_nested(k1: int, k2: int) -> bool:
         a = CContext().evaluate(qa)
         if fs is not None:
             fs.hook = None
-        ok = (not a.is_error) and a.data is not None and a.data.v == expected(qa)
+        ok = (not a.is_error) and a.data is not None and getattr(a.data, "v", a.data) == expected(qa)
         if lvl1.result is not None:
             b = lvl1.result
-            ok = ok and (not b.is_error) and b.data is not None and b.data.v == expected(qb)
+            ok = ok and (not b.is_error) and b.data is not None and getattr(b.data, "v", b.data) == expected(qb)
         if lvl2.result is not None:
             c = lvl2.result
-            ok = ok and (not c.is_error) and c.data is not None and c.data.v == expected(qc)
+            ok = ok and (not c.is_error) and c.data is not None and getattr(c.data, "v", c.data) == expected(qc)
         # every value left in the cache equals a fresh evaluation of its key
         for key in list(inner.keys()):
             g = inner.get(key)
@@ -182,15 +182,15 @@ def ob_nested(k1: int, k2: int) -> bool:
 def obligations(tier):
     q = tier == "quick"
     obs = []
-    caches = ["memory", "storecache"] if q else ["memory", "storecache", "filecache"]
+    caches = ["memory", "storecache", "filecache"]
     for c in caches:
-        for pi in (range(len(PAIRS)) if not q else [0, 1, 2, 4, 5]):
+        for pi in range(len(PAIRS)):
             obs.append(Ob("ob_nested", dict(cache=c, pair=pi, depth=1, third=0), timeout=250 if q else 1800, per_path=60,
                           bounds="%s: A=%s pre-empted at window k<=%d by B=%s (runs to completion)" % (c, QUERIES[PAIRS[pi][0]], MAXK, QUERIES[PAIRS[pi][1]])))
-    if not q:
-        for c in ["memory", "storecache"]:
-            for pi, third in [(0, 0), (1, 0), (0, 1), (4, 0)]:
-                obs.append(Ob("ob_nested", dict(cache=c, pair=pi, depth=2, third=third), timeout=3000, per_path=60,
+    if True:
+        for c in (["memory"] if q else ["memory", "storecache", "filecache"]):
+            for pi, third in ([(0, 0), (1, 0)] if q else [(0, 0), (1, 0), (0, 1), (4, 0), (9, 6), (2, 5)]):
+                obs.append(Ob("ob_nested", dict(cache=c, pair=pi, depth=2, third=third), timeout=250 if q else 3000, per_path=60,
                               bounds="%s: A=%s pre-empted at k1 by B=%s, itself pre-empted at k2 by C=%s (k1,k2<=%d)" % (
                                   c, QUERIES[PAIRS[pi][0]], QUERIES[PAIRS[pi][1]], QUERIES[third], MAXK)))
     return obs
